@@ -506,13 +506,14 @@ Fixpoint dataref_access (acc : list node) (ref : value) : M value :=
       | VUndef | VNull => if is_nullsafe a then ret VNull else fail e_nullref
       | VList _ l =>
           match oi with
-          | Some i => if (i =? -1)%Z then fail e_index else dataref_access rest (list_index l i)
+          | Some i => dataref_access rest (list_index l i)
           | None => fail e_index
           end
       | VMap _ m =>
-          match k with
-          | [] => fail e_key
-          | _ => dataref_access rest (map_key m k)
+          (* after repair C01-dataref-sentinels: "no key" is the presence of an index, not the key "" *)
+          match oi with
+          | None => dataref_access rest (map_key m k)
+          | Some _ => fail e_key
           end
       | _ => fail e_noncollection
       end
